@@ -307,11 +307,14 @@ def menu(w, rich):
             ev.append(("collapse_repeated_t", tname))
             if len(t.inds) >= 1:
                 ev.append(("expand_ind_t", tname))
+    for a in names:
+        ev.append(("make_overlap", a, a))
     for a, b in itertools.permutations(names, 2):
         ev.append(("combine_and", a, b))
         ev.append(("combine_or", a, b))
         ev.append(("ior", a, b))
         ev.append(("combine", a, b, True))
+        ev.append(("make_overlap", a, b))
         if rich:
             ev.append(("combine", a, b, False))
             ev.append(("tn_from_list", a, b))
@@ -371,8 +374,13 @@ def _tn_sizes(tn):
     return [(ix, tn.ind_size(ix)) for ix in tn.ind_map]
 
 
-COMBINE = {"combine_and", "combine_or", "ior", "iand", "add_tn", "combine", "tn_from_list", "make_norm"}
-NEWNET = {"combine_and", "combine_or", "combine", "tn_from_list", "make_norm"}
+COMBINE = {"combine_and", "combine_or", "ior", "iand", "add_tn", "combine", "tn_from_list", "make_norm", "make_overlap"}
+NEWNET = {"combine_and", "combine_or", "combine", "tn_from_list", "make_norm", "make_overlap"}
+# events that only LINK tensors into (new or existing) networks or copy
+# networks: the known repeated-label defect lives in the unlink / re-label
+# paths, so a wrong map after one of these is never attributed to it
+# (make_norm / make_overlap re-label a conjugated copy internally: not here)
+LINK_ONLY = {"init", "add_virtual", "add_copy", "copy", "vcopy", "deepcopy", "pickle", "select", "combine_and", "combine_or", "combine", "tn_from_list", "ior", "iand", "add_tn", "t_and", "view_as", "add_tag_tn", "add_tag_t", "nt_add_tag"}
 
 
 def apply(w, e):
@@ -580,6 +588,16 @@ def apply(w, e):
         if not T[e[1]].tensor_map:
             raise Precondition("empty network")
         T[w.newname()] = T[e[1]].make_norm(mangle_append=e[2])
+    elif k == "make_overlap":
+        if not T[e[1]].tensor_map or not T[e[2]].tensor_map:
+            raise Precondition("empty network")
+        _sizes_agree(T[e[1]], _tn_sizes(T[e[2]]))
+        # <other|self> is defined for two networks with the same open labels
+        oa = {i for i, c in scan_network(T[e[1]])[2].items() if c == 1}
+        ob = {i for i, c in scan_network(T[e[2]])[2].items() if c == 1}
+        if oa != ob:
+            raise Precondition("overlap of networks with different open labels")
+        T[w.newname()] = T[e[1]].make_overlap(T[e[2]])
     elif k == "combine":
         _sizes_agree(T[e[1]], _tn_sizes(T[e[2]]))
         T[w.newname()] = T[e[1]].combine(T[e[2]], virtual=e[3], check_collisions=True)
@@ -621,8 +639,8 @@ def _combine_pre(w, e):
             "same_objs": None,
         }
     a_ids = {id(t) for t in w.tns[e[1]].tensor_map.values()}
-    # make_norm combines two internal copies: they never share tensor objects
-    out["overlap"] = e[0] != "make_norm" and any(id(t) in a_ids for t in w.tns[second].tensor_map.values())
+    # make_norm / make_overlap combine internal copies: they never share tensor objects
+    out["overlap"] = e[0] not in ("make_norm", "make_overlap") and any(id(t) in a_ids for t in w.tns[second].tensor_map.values())
     return out
 
 
@@ -715,12 +733,20 @@ class C02Case(seq.Case):
     def apply(self, w, e):
         return apply(w, e)
 
-    def _classify(self, w, pre):
+    def _classify(self, w, pre, e=None):
         roots = set(pre["roots"]) if pre else set()
         roots |= _roots(w)
         if "tensor-held-twice" in roots:
             return "tensor-held-twice"
         if "repeated-label" in roots:
+            virtual_combo = e is not None and (e[0] in ("combine_or", "ior") or (e[0] in ("combine", "add_tn") and e[3]))
+            # (a virtual combination re-labels the operand's clashing inner
+            # labels IN PLACE, i.e. goes through the known re-label path)
+            if e is not None and e[0] in LINK_ONLY and not virtual_combo:
+                # a repeated label is classified correctly when a tensor is
+                # linked in (clean code: inner); only unlinking / re-labelling
+                # is the known finding
+                return "repeated-label-on-link"
             return "repeated-label"
         return "none"
 
@@ -730,7 +756,7 @@ class C02Case(seq.Case):
             raw += _combine_check(w, e, pre["combine"])
         if not raw:
             return []
-        root = self._classify(w, pre)
+        root = self._classify(w, pre, e)
         kinds = sorted({k for k, _ in raw})
         return [core.problem("after %r: %s" % (e, "; ".join(m for _, m in raw[:3])), root=root, event=e[0], kinds="+".join(kinds))]
 
@@ -1007,7 +1033,7 @@ def run_oset(ctx, depth):
 PLAN = {
     # recipe: (rich menu quick?, rich menu thorough?, depth quick, depth thorough)
     "W1": (True, True, 2, 3),
-    "W2": (True, True, 2, 3),
+    "W2": (True, False, 2, 3),
     "W3": (True, True, 2, 3),
     "W4": (False, False, 2, 3),
     "W5": (True, True, 2, 3),
